@@ -27,6 +27,9 @@ func main() {
 	tier := flag.String("tier", "", "quick|thorough (default: $VERIF_TIER or quick)")
 	verif := flag.String("verif", "", "verif dir (default: dir above the binary, or /verif)")
 	list := flag.Bool("list", false, "list implemented properties")
+	mutgen := flag.String("mutgen", "", "comma-separated repository files to generate mutants for (development aid)")
+	mutout := flag.String("mutout", "/tmp/mutants", "output directory of -mutgen")
+	anchors := flag.Bool("anchor-funcs", false, "print the functions overlapping the properties' anchor ranges (development aid)")
 	wb := flag.String("write-baseline", "", "write the symbol table of the current tree to this file and exit")
 	flag.Parse()
 	if *list {
@@ -48,6 +51,31 @@ func main() {
 			os.Exit(1)
 		}
 		if err := writeBaseline(w.Pkgs, *wb); err != nil {
+			fmt.Println(err)
+			os.Exit(1)
+		}
+		return
+	}
+	if *anchors {
+		writeBaselineMode = true
+		w, err := Load("quick", false, nil)
+		if err != nil {
+			fmt.Println("LOAD FAILURE:", err)
+			os.Exit(1)
+		}
+		if err := printAnchorFuncs(w, "/verif/properties.jsonl"); err != nil {
+			fmt.Println(err)
+			os.Exit(1)
+		}
+		return
+	}
+	if *mutgen != "" {
+		w, err := Load("quick", false, nil)
+		if err != nil {
+			fmt.Println("LOAD FAILURE:", err)
+			os.Exit(1)
+		}
+		if err := runMutgen(w, *mutgen, *mutout); err != nil {
 			fmt.Println(err)
 			os.Exit(1)
 		}
@@ -128,6 +156,7 @@ func main() {
 				}
 			}()
 			d.run(w, r)
+			genericRules(w, r, id)
 		}()
 		wall := time.Since(t1).Seconds()
 		if len(ids) == 1 {
